@@ -1447,6 +1447,7 @@ fn run_generic<B: Bk>(sc: &BScenario, replay: Option<Vec<Decision>>, trace: bool
         probes,
         states: Vec::new(),
         step_cap_hit,
+        switch_pairs: stats.switch_pairs.iter().copied().collect(),
     }
 }
 
